@@ -3,3 +3,62 @@ pub mod chain;
 pub mod mutate;
 pub mod refs;
 pub mod square;
+
+#[cfg(test)]
+mod tests {
+    use super::*;
+    use celestia_types::consts::appconsts::AppVersion;
+
+    #[test]
+    fn generated_chains_validate_and_link() {
+        for seed in 0..40u64 {
+            let spec = lv_common::sample_once(&chain::chain_strategy(2..=6, 6, true, true), seed);
+            let c = chain::build_chain(&spec);
+            for (i, h) in c.headers.iter().enumerate() {
+                h.validate().unwrap_or_else(|e| panic!("seed {seed} header {i}: {e} spec={spec:?}"));
+                if i > 0 {
+                    c.headers[i - 1].verify_adjacent(h).unwrap_or_else(|e| panic!("seed {seed} link {i}: {e}"));
+                }
+            }
+            // forks
+            if c.headers.len() > 2 {
+                let f = chain::build_fork(&c, 1, 2, 7, false);
+                f[0].validate().unwrap();
+                c.headers[0].verify_adjacent(&f[0]).unwrap();
+                assert_ne!(f[0].hash(), c.headers[1].hash());
+                let g = chain::build_fork(&c, 1, 2, 7, true);
+                g[0].validate().unwrap();
+                assert!(c.headers[0].verify_adjacent(&g[0]).is_err() || c.headers[0].header.next_validators_hash == g[0].header.validators_hash);
+            }
+        }
+    }
+
+    #[test]
+    fn squares_match_reference_roots() {
+        for seed in 0..30u64 {
+            let spec = lv_common::sample_once(&square::square_strategy(0, 3), seed);
+            let sq = square::build_square(&spec, AppVersion::V3);
+            let w = sq.eds.square_width();
+            for i in 0..w {
+                let r = square::ref_axis_root(&sq.eds, true, i);
+                assert_eq!(&r.to_bytes()[..], &celestia_types::nmt::NamespacedHashExt::to_array(&sq.dah.row_root(i).unwrap())[..], "row {i} seed {seed}");
+                let c = square::ref_axis_root(&sq.eds, false, i);
+                assert_eq!(&c.to_bytes()[..], &celestia_types::nmt::NamespacedHashExt::to_array(&sq.dah.column_root(i).unwrap())[..]);
+            }
+        }
+    }
+
+    #[test]
+    fn sign_bytes_match_lumina() {
+        use celestia_types::block::CommitExt;
+        let spec = lv_common::sample_once(&chain::chain_strategy(3..=3, 5, false, true), 3);
+        let c = chain::build_chain(&spec);
+        for h in &c.headers {
+            for i in 0..h.commit.signatures.len() {
+                if let Some(b) = chain::sign_bytes_of(&h.commit, h.header.chain_id.as_str(), i) {
+                    assert_eq!(b, h.commit.vote_sign_bytes(&h.header.chain_id, i).unwrap());
+                }
+            }
+        }
+    }
+}
